@@ -112,8 +112,8 @@ def gen_case(rng, tier, custom_final=True):
         return sort_over_sort_case(rng)
     cfg = gen.Cfg(
         engines=ENG,
-        ops=("calc", "proj", "sel", "dedup", "sort", "slice", "chain", "join", "mat", "cap", "rev"),
-        weights={"mat": 0.6, "chain": 0.5, "join": 0.5, "proj": 1.4, "calc": 1.3, "sel": 1.3, "cap": 0.5, "rev": 0.4},
+        ops=("calc", "proj", "sel", "dedup", "sort", "slice", "chain", "join", "mat", "cap", "rev", "mark"),
+        weights={"mat": 0.6, "chain": 0.5, "join": 0.5, "proj": 1.4, "calc": 1.3, "sel": 1.3, "cap": 0.5, "rev": 0.4, "mark": 0.4},
         max_depth=1 if rng.random() < 0.6 else 2,
         xfer_prob=0.3,
         raw_leaves=False,
@@ -132,7 +132,7 @@ def gen_case(rng, tier, custom_final=True):
         if new:
             state = new
             for _ in range(rng.randint(0, 3)):
-                op = g.pick_op(("calc", "proj", "sel", "dedup", "sort", "slice", "cap", "rev"))
+                op = g.pick_op(("calc", "proj", "sel", "dedup", "sort", "slice", "cap", "rev", "mark"))
                 nxt = g.unary(state, op)
                 if nxt:
                     state = nxt
